@@ -113,8 +113,14 @@ EXTRA = {
  "C19": " The configured URL may carry a query string (kept on every request kind); the first session DELETE may be answered 503 (the operation fails, the session id keeps being sent, a later terminate is sent again).",
  "C20": " Roots providers are mutated (AddRoot / RemoveRoot) while roots/list requests are being answered; the client workload that once raced is replayed three times under the detector on every run.",
 }
-for _k, _v in EXTRA.items():
-    _t = list(T[_k]); _t[2] = _t[2] + _v; T[_k] = tuple(_t)
+# additions made during the third round of seeded changes
+EXTRA3 = {
+ "C01": " The library's clients start at generated positions of their request id counter (around 10^6, 2^31, 2^32, up to 2^53 - 2000): a long-lived client's calls are answered like a fresh one's.",
+ "C04": " TestC04Concurrent: bursts of concurrent initialize / DELETE requests from 1-6 peers over 0-150 preloaded sessions while 1-6 goroutines poll GetActiveSessions: an answer given during a burst contains every session alive throughout and none deleted before, and after each burst the reported set equals the model's (asked twice), every live id is served and every deleted id refused. Tools that send notifications before answering (the first event commits the response headers) are part of the histories; headers are judged as committed on the wire.",
+}
+for _e in (EXTRA, EXTRA3):
+    for _k, _v in _e.items():
+        _t = list(T[_k]); _t[2] = _t[2] + _v; T[_k] = tuple(_t)
 
 def main():
     src = open(os.path.join(ROOT, "check")).read()
